@@ -21,7 +21,7 @@ def main():
     ids = sys.argv[2:]
     for prop in sorted(os.listdir(SRC)):
         for X in ("A", "B"):
-            sid = "%s-%s" % (prop, X)
+            sid = "%s-%s%s" % (prop, os.environ.get("SEED_ROUND", ""), X)
             if ids and sid not in ids:
                 continue
             diff = os.path.join(SRC, prop, X + ".diff")
@@ -48,10 +48,12 @@ def main():
             c = sh("cd /verif && ./check %s quick" % prop, env=ENV)
             sh("git -C %s checkout -- ." % WT)
             classes = [l.strip() for l in c.stdout.split("\n") if l.strip().startswith("violation class")]
+            if c.returncode == 2:
+                print(sid, "MACHINERY (exit 2):", c.stdout[-600:])
             res.update({"tests_with_change": t.stdout.strip(), "demo_rc_clean": d0.returncode,
                         "demo_rc_with_change": d1.returncode, "check_cmd": "./check %s quick" % prop,
                         "check_rc_with_change": c.returncode, "violation_classes": classes,
-                        "status": ("caught" if c.returncode == 1 else "MISSED") if d1.returncode != 0 and d0.returncode == 0
+                        "status": ("caught" if c.returncode == 1 else "MACHINERY-ERROR" if c.returncode == 2 else "MISSED") if d1.returncode != 0 and d0.returncode == 0
                         else "not a valid seeded change on the current tree (demo does not separate: clean rc=%d, changed rc=%d)" % (d0.returncode, d1.returncode)})
             print(sid, res["status"], classes[:2])
             out(sid, use, demo, res)
